@@ -1,5 +1,6 @@
 // C21: CompletionEvent and Latch waits never miss a wakeup and never return early.
 #include "mc_harness.h"
+#include <memory>
 #include <dispenso/completion_event.h>
 #include <dispenso/latch.h>
 
@@ -28,22 +29,38 @@ MC_HARNESS(latch) {
   dispenso::Latch l((uint32_t)c);
   auto raw_count = [&] { return l.impl_.status_.a_.load(std::memory_order_relaxed); };
   mc::Shared<int> returned{0};
+  // Plain (non-atomic) payloads, one per counting thread, written before its first count_down() and read by every
+  // waiter after its wait returned: a latch is a synchronisation point (as std::latch: count_down strongly
+  // happens-before the return of wait), so these accesses are ordered. The serialising scheduler makes the values
+  // always right; what this gives is something for the ThreadSanitizer runs (C21's own and C10's) to see if an
+  // arrival stops synchronising with the waiters.
+  std::unique_ptr<int[]> payload(new int[2]());
+  auto read_payloads = [&](const char* who) {
+    if (!A.empty()) MC_CHECK(payload[0] == 1, "%s returned but the first counting thread's earlier write is not visible", who);
+    if (!B.empty()) MC_CHECK(payload[1] == 1, "%s returned but the second counting thread's earlier write is not visible", who);
+  };
   for (int i = 0; i < w; i++)
     mc::spawn([&] {
       l.wait();
       MC_CHECK(raw_count() == 0, "Latch::wait() returned while the count was still %d", raw_count());
+      read_payloads("Latch::wait()");
+      MC_CHECK(l.try_wait(), "try_wait() false after wait() returned");
+      read_payloads("Latch::try_wait()");
       returned.add(1);
     });
   for (int i = 0; i < aw; i++)
     mc::spawn([&] {
       l.arrive_and_wait();
       MC_CHECK(raw_count() == 0, "Latch::arrive_and_wait() returned while the count was still %d", raw_count());
+      read_payloads("Latch::arrive_and_wait()");
       returned.add(1);
     });
   if (!B.empty())
     mc::spawn([&] {
+      payload[1] = 1;
       for (int n : B) l.count_down((uint32_t)n);
     });
+  if (!A.empty()) payload[0] = 1;
   for (int n : A) l.count_down((uint32_t)n);
   mc::join_all(); // a waiter that never returns shows up as a deadlock
   MC_CHECK(returned.get() == w + aw, "not all waiters returned");
@@ -58,18 +75,22 @@ MC_HARNESS(cevent) {
   dispenso::CompletionEvent ev;
   auto raw = [&] { return ev.impl_.status_.a_.load(std::memory_order_relaxed); };
   mc::Shared<int> notified{0};
+  std::unique_ptr<int> payload(new int(0)); // plain data published by notify() (see the latch harness)
   if (pre) {
     notified.set(1);
+    *payload = 1;
     ev.notify();
   }
   for (int i = 0; i < w; i++)
     mc::spawn([&] {
       ev.wait();
       MC_CHECK(notified.get() == 1 && raw() == 1, "CompletionEvent::wait() returned before notify()");
+      MC_CHECK(*payload == 1, "CompletionEvent::wait() returned but the notifier's earlier write is not visible");
       MC_CHECK(ev.completed(), "completed() false after wait() returned");
     });
   if (!pre) {
     notified.set(1);
+    *payload = 1;
     ev.notify();
   }
   mc::join_all();
